@@ -183,6 +183,7 @@ func checkFlagNames(w *World, r *Report, files []*ast.File, info *types.Info) {
 		return true
 	})
 	written := map[string]string{} // flag constant -> name
+	bare := map[string]bool{}      // flags whose name literal carries no dash
 	disp := map[string]string{}    // flag constant -> how the source spells it
 	ast.Inspect(ex.Body, func(n ast.Node) bool {
 		ifs, ok := n.(*ast.IfStmt)
@@ -208,12 +209,41 @@ func checkFlagNames(w *World, r *Report, files []*ast.File, info *types.Info) {
 				if tv, ok := info.Types[bl]; ok && tv.Value != nil {
 					s := strings.TrimSpace(constant.StringVal(tv.Value))
 					written[flag] = strings.TrimPrefix(s, "-")
+					if !strings.HasPrefix(s, "-") {
+						bare[flag] = true
+					}
 				}
 			}
 			return true
 		})
 		return true
 	})
+	// a name written without its dash must get one when the collected names are emitted:
+	// strings.Join(names, sep) with a dash in sep (and in front of the first name)
+	if len(bare) > 0 {
+		dashed := false
+		ast.Inspect(ex.Body, func(n ast.Node) bool {
+			call, ok := n.(*ast.CallExpr)
+			if !ok || len(call.Args) != 2 {
+				return true
+			}
+			if sel, ok := call.Fun.(*ast.SelectorExpr); !ok || sel.Sel.Name != "Join" {
+				return true
+			}
+			if tv, ok := info.Types[call.Args[1]]; ok && tv.Value != nil && tv.Value.Kind() == constant.String && strings.Contains(constant.StringVal(tv.Value), "-") {
+				dashed = true
+			}
+			return true
+		})
+		if !dashed {
+			var fl []string
+			for f := range bare {
+				fl = append(fl, written[f])
+			}
+			sort.Strings(fl)
+			r.Fail("flagnames", r.MkKey("flagnames", "builder.explainFlags", "dash in front of every flag name"), w.Pos(ex.Pos()), fmt.Sprintf("the flag names %s are written without a leading '-' of their own and are not joined with one: from the second flag on the parser reads a bare word, which is a glyph name (or an error), not a flag", strings.Join(fl, ", ")), nil)
+		}
+	}
 	// table form: for i, name := range TABLE { if flags&(1<<i) != 0 { write(" -" + name) } }
 	ast.Inspect(ex.Body, func(n ast.Node) bool {
 		rs, ok := n.(*ast.RangeStmt)
